@@ -33,6 +33,7 @@ type c17Req struct {
 	SID       string `json:"sid"`       // "-" absent | unknown | live-polling | live-websocket | closed
 	B64       bool   `json:"b64"`
 	JSONP     bool   `json:"jsonp"`
+	HTTP2     bool   `json:"http2"` // the request arrives over HTTP/2 (ProtoMajor 2), as behind TLS; the rules are the same
 }
 
 // c17Fixture is a server with one live polling session, one live WebSocket session and one closed session.
@@ -41,9 +42,9 @@ type c17Fixture struct {
 	hs       *http.Server
 	net      *memnet.Net
 	mu       sync.Mutex
-	created  []string          // sids for which NewSocketCallback ran, in order
-	closedCb map[string]int    // sid -> close callbacks
-	packets  map[string]int    // sid -> packets received
+	created  []string       // sids for which NewSocketCallback ran, in order
+	closedCb map[string]int // sid -> close callbacks
+	packets  map[string]int // sid -> packets received
 	sockets  map[string]eio.ServerSocket
 	pollSID  string
 	wsSID    string
@@ -225,6 +226,9 @@ func evalC17(fx *c17Fixture, r c17Req) *Failure {
 	createdBefore, closedBefore := fx.snapshot()
 	rec := httptest.NewRecorder()
 	req := httptest.NewRequest(r.Method, r.url(fx), bytes.NewReader(nil))
+	if r.HTTP2 {
+		req.Proto, req.ProtoMajor, req.ProtoMinor = "HTTP/2.0", 2, 0
+	}
 	done := make(chan string, 1)
 	go func() {
 		msg, _ := catchPanic(func() { fx.server.ServeHTTP(rec, req) })
@@ -336,6 +340,9 @@ func c17Matrix() []c17Req {
 					for _, b64 := range []bool{false, true} {
 						for _, j := range []bool{false, true} {
 							out = append(out, c17Req{Method: m, EIO: v, Transport: tr, SID: sid, B64: b64, JSONP: j})
+							if tr != "websocket" { // (a WebSocket upgrade is an HTTP/1.1 matter)
+								out = append(out, c17Req{Method: m, EIO: v, Transport: tr, SID: sid, B64: b64, JSONP: j, HTTP2: true})
+							}
 						}
 					}
 				}
@@ -347,7 +354,7 @@ func c17Matrix() []c17Req {
 
 func TestC17_Matrix(t *testing.T) {
 	ev := NewEv(t, "C17", c17CheckMatrix, "exhaustive request matrix: method {GET,POST,PUT,DELETE,OPTIONS} x EIO {absent,3,4,5,x4,empty} x transport {absent,polling,websocket,junk} x "+
-		"sid {absent,unknown,live polling,live websocket,closed} x b64 x jsonp = 2400 requests through Server.ServeHTTP against a fixture with live sessions (valid poll/post traffic excluded); "+
+		"sid {absent,unknown,live polling,live websocket,closed} x b64 x jsonp x {HTTP/1.1, HTTP/2 (non-WebSocket)} = 4200 requests through Server.ServeHTTP against a fixture with live sessions (valid poll/post traffic excluded); "+
 		"oracle: 400 + protocol JSON error whose code belongs to the invalid aspects, NewSocketCallback not invoked, no session closed, both live sessions still work afterwards; "+
 		"non-trivial = >= 2 invalid aspects at once")
 	ev.Exhaustive()
@@ -383,7 +390,8 @@ const c17CheckIDs = "c17-ids"
 
 func TestC17_IDs(t *testing.T) {
 	n := tierN(100000, 1000000)
-	ev := NewEv(t, "C17", c17CheckIDs, "ids from GenerateBase64ID drawn concurrently from 16 goroutines plus real handshakes: pairwise distinct, well-formed (URL-safe base64 of 15 bytes); "+
+	ev := NewEv(t, "C17", c17CheckIDs, "ids from GenerateBase64ID drawn concurrently from 16 goroutines plus real handshakes, sequential and in rounds of 64 simultaneous ones (every client is told the id of the session created for it, no two the same): "+
+		"pairwise distinct, well-formed (URL-safe base64 of 15 bytes); "+
 		"non-trivial = every id (each is compared with all others)")
 	var mu sync.Mutex
 	seen := make(map[string]struct{}, n)
@@ -446,6 +454,60 @@ func TestC17_IDs(t *testing.T) {
 		ev.Case("hs"+hr.SID, true, "handshake")
 	}
 	srv.Close()
+	// simultaneous handshakes: every client is told the id of the session that was created for it, and no two clients the same one
+	var cmu sync.Mutex
+	created := map[string]bool{}
+	srv2 := eio.NewServer(func(s eio.ServerSocket) *eio.Callbacks {
+		cmu.Lock()
+		created[s.ID()] = true
+		cmu.Unlock()
+		return nil
+	}, nil)
+	rounds := tierV(40, 400) / max(envShards/4, 1)
+	for round := 0; round < rounds; round++ {
+		const par = 64
+		answered := make([]string, par)
+		var wg2 sync.WaitGroup
+		gate := make(chan struct{})
+		for g := 0; g < par; g++ {
+			wg2.Add(1)
+			go func() {
+				defer wg2.Done()
+				<-gate
+				rec := httptest.NewRecorder()
+				srv2.ServeHTTP(rec, httptest.NewRequest("GET", "/engine.io/?EIO=4&transport=polling", nil))
+				var hr parser.HandshakeResponse
+				if rec.Code == 200 && rec.Body.Len() > 1 && json.Unmarshal(rec.Body.Bytes()[1:], &hr) == nil {
+					answered[g] = hr.SID
+				} else {
+					answered[g] = fmt.Sprintf("!%d %q", rec.Code, rec.Body.String())
+				}
+			}()
+		}
+		close(gate)
+		wg2.Wait()
+		told := map[string]int{}
+		cmu.Lock()
+		for g, sid := range answered {
+			told[sid]++
+			ev.Case("par"+sid+fmt.Sprint(round, g), true, "simultaneous-handshake")
+			if strings.HasPrefix(sid, "!") {
+				cmu.Unlock()
+				Fail(t, Failure{Property: "C17", Check: c17CheckIDs, Clause: "valid-handshake", Class: "simultaneous", Detail: "a simultaneous handshake was answered " + sid})
+			}
+			if !created[sid] {
+				cmu.Unlock()
+				Fail(t, Failure{Property: "C17", Check: c17CheckIDs, Clause: "sid-unique", Class: "simultaneous", Detail: fmt.Sprintf("round %d: a client was told the session id %q, but no session with that id was created (%d simultaneous handshakes)", round, sid, par)})
+			}
+		}
+		cmu.Unlock()
+		for sid, n := range told {
+			if n > 1 {
+				Fail(t, Failure{Property: "C17", Check: c17CheckIDs, Clause: "sid-unique", Class: "simultaneous", Detail: fmt.Sprintf("round %d: %d of %d simultaneous handshakes were told the same session id %q", round, n, par, sid)})
+			}
+		}
+	}
+	srv2.Close()
 }
 
 // ---- requests racing Close --------------------------------------------------------------------------------------------
@@ -453,10 +515,10 @@ func TestC17_IDs(t *testing.T) {
 const c17CheckClose = "c17-close"
 
 type c17CloseCase struct {
-	Handshakers int `json:"handshakers"`
-	PerG        int `json:"per_goroutine"`
-	CloseAfter  int `json:"close_after"` // Close is called once this many handshakes have started
-	Yield       bool `json:"yield"`      // park handshakes at the hook before store.set while Close runs
+	Handshakers int  `json:"handshakers"`
+	PerG        int  `json:"per_goroutine"`
+	CloseAfter  int  `json:"close_after"` // Close is called once this many handshakes have started
+	Yield       bool `json:"yield"`       // park handshakes at the hook before store.set while Close runs
 }
 
 func evalC17Close(c c17CloseCase) (*Failure, bool) {
